@@ -52,6 +52,30 @@ def yaml11_float(s):
     s = s.replace('.e', 'e')
     return sign * Fraction(s)
 
+_TS = None
+def yaml11_timestamp(s):
+    """value of a text of the timestamp type: a date, or a datetime whose microsecond field is the fraction TRUNCATED to six digits
+    (exact decimal arithmetic) and whose offset is Z / [+-]hh(:mm)?; None when a field is out of range (the converter's crash on
+    those is a known finding) or the offset is not a whole number of minutes below 24h"""
+    global _TS
+    import re, datetime
+    if _TS is None:
+        _TS = re.compile(r'^(\d{4})-(\d\d?)-(\d\d?)(?:(?:[Tt]|[ \t]+)(\d\d?):(\d\d):(\d\d)(?:\.(\d*))?(?:[ \t]*(Z|([-+])(\d\d?)(?::(\d\d))?))?)?$')
+    m = _TS.match(s)
+    if not m: return None
+    y, mo, d, h, mi, sec, frac, tz, sg, th, tm = m.groups()
+    try:
+        if h is None: return datetime.date(int(y), int(mo), int(d))
+        us = int(((frac or '') + '000000')[:6])
+        tzinfo = None
+        if tz == 'Z': tzinfo = datetime.timezone.utc
+        elif tz:
+            delta = datetime.timedelta(hours=int(th), minutes=int(tm or 0))
+            tzinfo = datetime.timezone(-delta if sg == '-' else delta)
+        return datetime.datetime(int(y), int(mo), int(d), int(h), int(mi), int(sec), us, tzinfo=tzinfo)
+    except (ValueError, OverflowError):
+        return None
+
 # ---- members of each reference language (random descent over the parsed pattern): used by generators and witness search
 import re._parser as _sp
 from re._constants import LITERAL, IN, BRANCH, SUBPATTERN, MAX_REPEAT, AT, RANGE, NEGATE, MAXREPEAT
